@@ -219,6 +219,14 @@ def step (st : DState) (line : String) : DState × String :=
     ({ st with lib := l }, s!"{outStr o} | {stateStr l}")
   | ["watchlist"] =>
     (st, "L " ++ ";".intercalate ((sortBy listLt st.lib.watchList).map hex))
+  | "rawread" :: bytes :: args =>
+    -- exactly one read of the reader (may be empty or shorter than a header)
+    match decodeBuf (unhex bytes) with
+    | .outOfBounds _ => (st, "OUT-OF-BOUNDS")
+    | .ok _ =>
+      let (l, _, o, bs) := st.lib.stepRead (mkEnv args) (unhex bytes)
+      let st' := { st with lib := l, branches := bs.foldl (fun acc b => bump acc (brStr b)) st.branches }
+      (st', s!"{outStr o} | {stateStr l}")
   | "raw" :: bytes :: args =>
     match decodeBuf (unhex bytes) with
     | .outOfBounds _ => (st, "OUT-OF-BOUNDS")
